@@ -218,6 +218,32 @@ impl<MutexType: RawMutex> GenericManualResetEvent<MutexType> {
 }
 
 /// A Future that is resolved once the corresponding ManualResetEvent has been set
+#[cfg(futures_intrusive_verif)]
+impl<MutexType: RawMutex> GenericManualResetEvent<MutexType> {
+    /// Reports the internal state to the external verification harness
+    pub fn verif_snapshot(&self, f: &mut dyn FnMut(crate::verif::Item<'_>)) {
+        use crate::verif::{list_links, Entry, Item};
+        let state = self.inner.lock();
+        f(Item::Scalar("is_set", state.is_set as u64));
+        let mut report = |queue: u8, node: &ListNode<WaitQueueEntry>| {
+            f(Item::Entry(Entry {
+                queue,
+                addr: node as *const _ as usize,
+                state: match node.state {
+                    PollState::New => 0,
+                    PollState::Waiting => 1,
+                    PollState::Done => 3,
+                },
+                waker: node.task.as_ref(),
+                num: 0,
+                links: list_links(node),
+            }))
+        };
+        state.waiters.verif_for_each(&mut |node| report(0, node));
+        state.waiters.verif_for_each_rev(&mut |node| report(0x80, node));
+    }
+}
+
 #[must_use = "futures do nothing unless polled"]
 pub struct GenericWaitForEventFuture<'a, MutexType: RawMutex> {
     /// The ManualResetEvent that is associated with this WaitForEventFuture
